@@ -141,8 +141,22 @@ func (h *EntryHandler) Handle(ctx context.Context, q *dns.Msg, serverMeta server
 
 	payload, err := packMsgPayload(resp)
 	if err != nil {
-		h.opts.Logger.Error("internal err: failed to pack resp msg", qCtx.InfoField(), zap.Error(err))
-		return nil
+		// resp cannot be put on the wire, e.g. it has a record that was
+		// unpacked from an upstream reply but cannot be packed again.
+		// The client must still get a reply.
+		h.opts.Logger.Warn("failed to pack resp msg", qCtx.InfoField(), zap.Error(err))
+		resp = new(dns.Msg)
+		resp.SetReply(q)
+		resp.Rcode = dns.RcodeServerFailure
+		resp.RecursionAvailable = true
+		if respOpt := qCtx.RespOpt(); respOpt != nil {
+			resp.Extra = append(resp.Extra, respOpt)
+		}
+		payload, err = packMsgPayload(resp)
+		if err != nil {
+			h.opts.Logger.Error("internal err: failed to pack resp msg", qCtx.InfoField(), zap.Error(err))
+			return nil
+		}
 	}
 	return payload
 }
